@@ -352,3 +352,58 @@ fn ev(p: &Program, i: &HashMap<u32, i64>, x: &HashMap<u32, i64>, e: &Expr, d: &m
         Expr::Delay(_, e) => ev(p, i, x, e, d)?,
     })
 }
+
+
+/// From-scratch evaluation WITH dependency cycles (the oracle of C06): demand-driven evaluation of
+/// `root` on a fresh engine as the property describes it - a read of a query that is being
+/// evaluated closes a cycle; every query on the evaluation stack from that query up to the reader
+/// lies on the cycle, is unwound by the cyclic error and takes its executor's cycle default; a query
+/// outside the cycle that reads a member sees that default as an ordinary value.  `None`: an input
+/// is unset.
+pub fn oracle_cyclic(prog: &Program, inputs: &HashMap<u32, i64>, ext: &HashMap<u32, i64>, root: Node) -> Option<i64> {
+    struct Ev<'a> { p: &'a Program, i: &'a HashMap<u32, i64>, x: &'a HashMap<u32, i64>, memo: HashMap<Node, i64>, stack: Vec<Node>, marked: std::collections::HashSet<Node>, unset: bool }
+    enum R { Val(i64), Cyc }
+    impl Ev<'_> {
+        /// what the reader on top of the stack gets
+        fn read(&mut self, n: Node) -> R {
+            let v = match n.kind {
+                Kind::Input => match self.i.get(&n.idx) { Some(v) => *v, None => { self.unset = true; 0 } },
+                Kind::External => match self.x.get(&n.idx) { Some(v) => *v, None => { self.unset = true; 0 } },
+                _ => {
+                    if let Some(v) = self.memo.get(&n) { *v }
+                    else if let Some(pos) = self.stack.iter().position(|m| *m == n) {
+                        for m in self.stack[pos..].to_vec() { self.marked.insert(m); }
+                        return R::Cyc;
+                    } else {
+                        self.stack.push(n);
+                        let r = match self.p.exprs.get(&n) { Some(e) => self.ev(&e.clone()), None => { self.unset = true; R::Val(0) } };
+                        self.stack.pop();
+                        let v = if self.marked.contains(&n) { scc_default(n.kind) } else { match r { R::Val(v) => v, R::Cyc => scc_default(n.kind) } };
+                        self.memo.insert(n, v);
+                        v
+                    }
+                }
+            };
+            // a reader that is itself on the cycle is unwound
+            if self.stack.last().is_some_and(|top| self.marked.contains(top)) { R::Cyc } else { R::Val(v) }
+        }
+        fn ev(&mut self, e: &Expr) -> R {
+            macro_rules! get { ($x:expr) => { match $x { R::Val(v) => v, R::Cyc => return R::Cyc } } }
+            R::Val(match e {
+                Expr::Const(z) => *z,
+                Expr::Read(n) => get!(self.read(*n)),
+                Expr::Add(a, b) => { let x = get!(self.ev(a)); let y = get!(self.ev(b)); x.wrapping_add(y) }
+                Expr::Mul(a, b) => { let x = get!(self.ev(a)); let y = get!(self.ev(b)); x.wrapping_mul(y) }
+                Expr::Mod(a, m) => get!(self.ev(a)).rem_euclid(*m),
+                Expr::Lt(a, b) => { let x = get!(self.ev(a)); let y = get!(self.ev(b)); (x < y) as i64 }
+                Expr::If(c, a, b) => { let x = get!(self.ev(c)); if x != 0 { get!(self.ev(a)) } else { get!(self.ev(b)) } }
+                Expr::Group(ns) | Expr::Spawn(ns) => { let mut s = 0i64; for n in ns { s = s.wrapping_add(get!(self.read(*n))); } s }
+                Expr::Delay(_, e) => get!(self.ev(e)),
+            })
+        }
+    }
+    let mut ev = Ev { p: prog, i: inputs, x: ext, memo: HashMap::new(), stack: Vec::new(), marked: Default::default(), unset: false };
+    let r = ev.read(root);
+    if ev.unset { return None; }
+    match r { R::Val(v) => Some(v), R::Cyc => None }
+}
